@@ -46,6 +46,18 @@ type DkgScenario struct {
 	Generate    bool        `json:"generate"`
 	Warm        bool        `json:"warm"` // an earlier, fault-free generation of another account in the same wallet (from the last instance) comes first
 	Duties      []DutyOp    `json:"duties"`
+	// Prior: an earlier generation of the SAME account name, requested of instance Prior.Initiator with Prior.N participants and
+	// threshold Prior.T (the cluster is larger than that).  With InitiatorNonHolder the main generation is then requested of the
+	// first instance that does not hold an account of that name (Initiator is ignored).
+	Prior              *PriorGen `json:"prior"`
+	InitiatorNonHolder bool      `json:"initiator_nonholder"`
+}
+
+// PriorGen describes the earlier generation of the same name.
+type PriorGen struct {
+	Initiator uint64 `json:"initiator"`
+	N         uint32 `json:"n"`
+	T         uint32 `json:"t"`
 }
 
 // DutyOp asks one instance for a partial signature for a duty on the generated account (C14).
@@ -192,7 +204,7 @@ func RunDkgScenario(ctx context.Context, sc *DkgScenario, log *Log) error {
 	// ---- a complete generation driven by the initiator
 	if sc.Generate {
 		in := c.Inst[sc.Initiator]
-		if in == nil {
+		if in == nil && !(sc.Prior != nil && sc.InitiatorNonHolder) {
 			return fmt.Errorf("unknown initiator %d", sc.Initiator)
 		}
 		if sc.Warm {
@@ -207,6 +219,52 @@ func RunDkgScenario(ctx context.Context, sc *DkgScenario, log *Log) error {
 				return nil
 			})
 			log.Emit(Ev{"ev": "Warm", "ok": werr == nil && wres != nil && wres.GetState() == pb.ResponseState_SUCCEEDED})
+		}
+		if sc.Prior != nil {
+			pi := c.Inst[sc.Prior.Initiator]
+			if pi == nil {
+				return fmt.Errorf("unknown prior initiator %d", sc.Prior.Initiator)
+			}
+			var pres *pb.GenerateResponse
+			var perr error
+			_ = c.deliver(pi, "Generate", func() error {
+				pres, perr = pi.St.AcctH.Generate(credsCtx(ctx, client, ""), roundTrip(&pb.GenerateRequest{Account: sc.Account, Passphrase: []byte("pass"),
+					Participants: sc.Prior.N, SigningThreshold: sc.Prior.T}, &pb.GenerateRequest{}))
+				return nil
+			})
+			pok := perr == nil && pres != nil && pres.GetState() == pb.ResponseState_SUCCEEDED
+			pparts := []uint64{}
+			if pres != nil {
+				for _, p := range pres.GetParticipants() {
+					pparts = append(pparts, p.GetId())
+				}
+			}
+			holders := []uint64{}
+			for _, id := range c.Order {
+				if info := c.Inspect(ctx, c.Inst[id], sc.Account); info.Present || info.InFetcher {
+					holders = append(holders, id)
+				}
+			}
+			log.Emit(Ev{"ev": "Prior", "ok": pok, "participants": pparts, "holders": holders})
+			if sc.InitiatorNonHolder {
+				in = nil
+				for _, id := range c.Order {
+					held := false
+					for _, h := range holders {
+						held = held || h == id
+					}
+					if !held {
+						in = c.Inst[id]
+						break
+					}
+				}
+				if in == nil {
+					log.Emit(Ev{"ev": "Outcome", "ok": false, "n": sc.N, "t": sc.T, "message": "harness: every instance holds the name already", "participants": []uint64{}, "faults_hit": []string{}, "skipped": true})
+					log.Emit(Ev{"ev": "End", "sc": sc.ID, "crashed": []uint64{}})
+					return nil
+				}
+				log.Emit(Ev{"ev": "InitiatorChosen", "inst": in.ID})
+			}
 		}
 		var res *pb.GenerateResponse
 		var gerr error
